@@ -234,6 +234,16 @@ func (m Mode) IxLit(n int64) string { return m.IntLit(big.NewInt(n), nil) }
 
 // index arithmetic helpers (on IX)
 func (m Mode) ixAdd(a, b string) string {
+	// a + (j - a) = j  (change of variable in quantifiers)
+	sub := "(- "
+	if m.BV {
+		sub = "(bvsub "
+	}
+	if strings.HasPrefix(b, sub) && strings.HasSuffix(b, " "+a+")") {
+		if f, as := topArgs(b); len(as) == 2 && as[1] == a && (f == "-" || f == "bvsub") {
+			return as[0]
+		}
+	}
 	if m.BV {
 		if b == m.IxLit(0) {
 			return a
